@@ -18,12 +18,14 @@ import (
 	"net"
 	"net/http"
 	"net/url"
+	"reflect"
 	"sort"
 	"strings"
 	"sync"
 	"sync/atomic"
 	"time"
 
+	"github.com/fabiolb/fabio/auth"
 	"github.com/fabiolb/fabio/config"
 	"github.com/fabiolb/fabio/proxy"
 	"github.com/fabiolb/fabio/route"
@@ -111,6 +113,8 @@ func pairsMD(ps [][]string) (metadata.MD, error) {
 // ---- backends --------------------------------------------------------------------------------------------
 
 type Script struct {
+	// DelayMS: the backend waits that long before it sends its first message (or, without messages, its status)
+	DelayMS int        `json:"delay_ms,omitempty"`
 	Mode    string     `json:"mode"` // drain | pingpong | replyfirst | early
 	Header  [][]string `json:"header,omitempty"`
 	Msgs    []string   `json:"msgs,omitempty"` // hex
@@ -184,7 +188,15 @@ func (b *backend) handle(_ interface{}, ss grpc.ServerStream) error {
 		return status.Error(codes.FailedPrecondition, "harness: no script")
 	}
 	sentHeader := false
+	delayed := sb.s.DelayMS <= 0
+	delay := func() {
+		if !delayed {
+			delayed = true
+			time.Sleep(time.Duration(sb.s.DelayMS) * time.Millisecond)
+		}
+	}
 	send := func(i int) error {
+		delay()
 		if !sentHeader {
 			sentHeader = true
 			if err := ss.SendHeader(sb.header); err != nil {
@@ -250,6 +262,7 @@ func (b *backend) handle(_ interface{}, ss grpc.ServerStream) error {
 			return err
 		}
 	}
+	delay()
 	if !sentHeader && len(sb.header) > 0 {
 		ss.SetHeader(sb.header)
 	}
@@ -274,7 +287,62 @@ type rig struct {
 var (
 	rigOnce sync.Once
 	theRig  *rig
+	rigMu   sync.Mutex
+	rigs    = map[int]*rig{}
 )
+
+// callConfigs: the configurations the call stream runs the proxy under. 0 = the defaults of config/default.go
+// (proxyConfig); 1 = every duration option of config.Proxy short (the property is about every call, whatever
+// timeouts the operator configured for the proxy: none of them may cut a healthy gRPC call), found by
+// reflection over the repo's own type so that an option added later is covered as well.
+const callConfigs = 2
+
+const shortOption = 120 * time.Millisecond
+
+func callConfig(v int) *config.Config {
+	cfg := proxyConfig(100 * time.Millisecond)
+	if v == 1 {
+		pv := reflect.ValueOf(&cfg.Proxy).Elem()
+		dur := reflect.TypeOf(time.Duration(0))
+		for i := 0; i < pv.NumField(); i++ {
+			if f := pv.Field(i); f.Type() == dur && f.CanSet() && pv.Type().Field(i).Name != "GRPCGShutdownTimeout" {
+				f.SetInt(int64(shortOption))
+			}
+		}
+	}
+	return cfg
+}
+
+// rigFor returns the proxy running under configuration v; all share the backends of configuration 0.
+func rigFor(v int) (*rig, error) {
+	base := getRig()
+	if v == 0 {
+		return base, nil
+	}
+	if v < 0 || v >= callConfigs {
+		return nil, fmt.Errorf("no such configuration")
+	}
+	rigMu.Lock()
+	defer rigMu.Unlock()
+	if r, ok := rigs[v]; ok {
+		return r, nil
+	}
+	r := &rig{cfg: callConfig(v), noRoute: generic.NewCounter("grpc.noroute"), backends: base.backends, urls: base.urls}
+	l, err := listenLoopback()
+	if err != nil {
+		return nil, err
+	}
+	r.proxyLn = l
+	go newProxyServer(r.cfg, r.noRoute).Serve(l)
+	cc, err := grpc.Dial(l.Addr().String(), grpc.WithTransportCredentials(insecure.NewCredentials()),
+		grpc.WithDefaultCallOptions(grpc.ForceCodec(rawCodec{}), grpc.MaxCallRecvMsgSize(16<<20), grpc.MaxCallSendMsgSize(16<<20)))
+	if err != nil {
+		return nil, err
+	}
+	r.client = cc
+	rigs[v] = r
+	return r, nil
+}
 
 const callBackends = 3
 
@@ -287,10 +355,15 @@ func newProxyServer(cfg *config.Config, noRoute *generic.Counter) *grpc.Server {
 		Status:  generic.NewHistogram("grpc.status", 50),
 	}
 	globCache := route.NewGlobCache(cfg.GlobCacheSize)
+	authSchemes, err := auth.LoadAuthSchemes(cfg.Proxy.AuthSchemes)
+	if err != nil {
+		panic(err)
+	}
 	proxyInterceptor := proxy.GrpcProxyInterceptor{
 		Config:       cfg,
 		StatsHandler: statsHandler,
 		GlobCache:    globCache,
+		AuthSchemes:  authSchemes,
 	}
 	handler := grpc_proxy.TransparentHandler(proxy.GetGRPCDirector(nil, cfg))
 	return grpc.NewServer(
@@ -305,7 +378,7 @@ func newProxyServer(cfg *config.Config, noRoute *generic.Counter) *grpc.Server {
 
 func getRig() *rig {
 	rigOnce.Do(func() {
-		r := &rig{cfg: proxyConfig(100 * time.Millisecond), noRoute: generic.NewCounter("grpc.noroute")}
+		r := &rig{cfg: callConfig(0), noRoute: generic.NewCounter("grpc.noroute")}
 		for i := 0; i < callBackends; i++ {
 			l, err := listenLoopback()
 			if err != nil {
@@ -354,10 +427,14 @@ type CallStep struct {
 	MD     [][]string `json:"md,omitempty"`
 	Msgs   []string   `json:"msgs,omitempty"` // hex
 	Script *Script    `json:"script,omitempty"`
+	// PauseMS: the caller waits that long before it sends its last message (before it closes its side when it
+	// has none): a slow upload
+	PauseMS int `json:"pause_ms,omitempty"`
 }
 
 type CallCase struct {
 	Steps []CallStep `json:"steps"`
+	Cfg   int        `json:"cfg,omitempty"` // configuration of the proxy (callConfig)
 }
 
 type callerSaw struct {
@@ -455,6 +532,9 @@ func (r *rig) doCall(st *CallStep, connIDs map[string]int) (*callObs, error) {
 	if len(msgs) > 64 || len(sb.msgs) > 64 {
 		return nil, fmt.Errorf("too many messages")
 	}
+	if st.PauseMS < 0 || st.PauseMS > 2000 || st.Script.DelayMS < 0 || st.Script.DelayMS > 2000 {
+		return nil, fmt.Errorf("bad pause")
+	}
 	curScript.Store(sb)
 
 	o := &callObs{Op: "call"}
@@ -504,9 +584,17 @@ func (r *rig) doCall(st *CallStep, connIDs map[string]int) (*callObs, error) {
 				alive = recvOne()
 			}
 		}
+		pause := func() {
+			if st.PauseMS > 0 {
+				time.Sleep(time.Duration(st.PauseMS) * time.Millisecond)
+			}
+		}
 		for i := range msgs {
 			if !alive {
 				break
+			}
+			if i == len(msgs)-1 {
+				pause()
 			}
 			m := msgs[i]
 			if err := cs.SendMsg(&m); err != nil {
@@ -516,6 +604,9 @@ func (r *rig) doCall(st *CallStep, connIDs map[string]int) (*callObs, error) {
 				alive = recvOne()
 				got++
 			}
+		}
+		if len(msgs) == 0 && alive {
+			pause()
 		}
 		cs.CloseSend()
 		for alive {
@@ -646,7 +737,10 @@ func runCall(raw json.RawMessage) (interface{}, error) {
 	if len(c.Steps) > 100 {
 		return nil, fmt.Errorf("too many steps")
 	}
-	r := getRig()
+	r, err := rigFor(c.Cfg)
+	if err != nil {
+		return nil, err
+	}
 	saved := route.GetTable()
 	defer route.SetTable(saved)
 	route.SetTable(make(route.Table))
@@ -759,6 +853,13 @@ func genCallStep(r *hx.Rand) CallStep {
 	sc.Code = statusCode[r.Intn(len(statusCode))]
 	if sc.Code != 0 {
 		sc.Message = r.Pick(statusMsgs)
+	}
+	// slow calls: an upload that takes longer than any configured timeout, a backend that answers late
+	if r.Chance(1, 10) {
+		st.PauseMS = r.Range(250, 400)
+	}
+	if r.Chance(1, 12) {
+		sc.DelayMS = r.Range(250, 400)
 	}
 	st.Script = sc
 	return st
@@ -874,7 +975,7 @@ func aimCall(st *CallStep, src string) {
 }
 
 func genCall(r *hx.Rand, i int) interface{} {
-	c := CallCase{}
+	c := CallCase{Cfg: r.Intn(callConfigs)}
 	tb, aim := genCallTable(r)
 	c.Steps = append(c.Steps, tb)
 	n := r.Range(1, 5)
